@@ -98,7 +98,12 @@ pub fn node_info_str(n: &NodeInfo) -> String {
 }
 
 fn ni_encode(n: &NodeInfo) -> Vec<u8> {
+    // the buffer a message is encoded into is reused in the running node: it is not zeroed
     let mut buf = MsgBuffer::new(100);
+    for b in buf.buffer().iter_mut() {
+        *b = 0xa5;
+    }
+    buf.clear();
     n.encode(&mut buf);
     buf.message().to_vec()
 }
